@@ -265,7 +265,8 @@ Lemma vm_keep_loop_spec : forall l ok s, vm_wf s ->
   (forall e, In e (snd r) -> match e with VMClosed _ _ => False | _ => True end).
 Proof.
   induction l as [|[k c] r IH]; intros ok s Hwf Hnd Hl; simpl.
-  - repeat split; auto; try lia; try contradiction; apply Hwf.
+  - split; [exact Hwf|]. split; [reflexivity|]. split; [lia|]. split; [auto|]. split; [auto|].
+    split; [intros n []|intros e []].
   - inversion Hnd as [|? ? Hk Hr]; subst.
     destruct (Hl k c (or_introl eq_refl)) as [Hname Hcfg]. rewrite Hname.
     assert (Hl' : forall k' c', In (k', c') r -> rc_name c' = k' /\ rc_get (vm_cfgs s) k' <> None)
